@@ -52,24 +52,25 @@ type GAStep struct {
 
 // GACase is one case of h3-goaway.
 type GACase struct {
-	Mode      string   `json:"mode"`   // script | shutdown | close
-	Client    string   `json:"client"` // script: plain | spec:<base>; shutdown / close: raw | plain | spec:<base>
-	NReq      int      `json:"nreq"`   // requests in flight: stream IDs 0, 4, .. 4(NReq-1)
-	Kind      string   `json:"kind,omitempty"`
-	Steps     []GAStep `json:"steps,omitempty"`
-	Bodies    []int    `json:"bodies"`            // response body sizes of the requests in flight
-	Partial   bool     `json:"partial,omitempty"` // script: header + first half of the body of the requests that will be served are sent BEFORE the GOAWAY
-	Lifo      bool     `json:"lifo,omitempty"`    // answer in reverse order
-	Late      int      `json:"late"`              // RoundTrips started after the (last) GOAWAY was delivered
-	LatePost  bool     `json:"late_post,omitempty"`
-	Cuts      []int    `json:"cuts,omitempty"`
-	GapMs     int      `json:"gap_ms,omitempty"`
-	RTTms     int      `json:"rtt_ms"`
-	SrvLogger bool     `json:"srv_logger"`
-	CliLogger bool     `json:"cli_logger"`
-	Seed      uint64   `json:"seed"`
-	VSeed     uint64   `json:"vseed,omitempty"`
-	VDens     int      `json:"vdens,omitempty"`
+	Mode      string    `json:"mode"`   // script | shutdown | close
+	Client    string    `json:"client"` // script: plain | spec:<base>; shutdown / close: raw | plain | spec:<base>
+	NReq      int       `json:"nreq"`   // requests in flight: stream IDs 0, 4, .. 4(NReq-1)
+	Kind      string    `json:"kind,omitempty"`
+	Steps     []GAStep  `json:"steps,omitempty"`
+	Bodies    []int     `json:"bodies"`            // response body sizes of the requests in flight
+	Partial   bool      `json:"partial,omitempty"` // script: header + first half of the body of the requests that will be served are sent BEFORE the GOAWAY
+	Lifo      bool      `json:"lifo,omitempty"`    // answer in reverse order
+	Late      int       `json:"late"`              // RoundTrips started after the (last) GOAWAY was delivered
+	LatePost  bool      `json:"late_post,omitempty"`
+	Cuts      []int     `json:"cuts,omitempty"`
+	GapMs     int       `json:"gap_ms,omitempty"`
+	RTTms     int       `json:"rtt_ms"`
+	SrvLogger bool      `json:"srv_logger"`
+	CliLogger bool      `json:"cli_logger"`
+	Seed      uint64    `json:"seed"`
+	VSeed     uint64    `json:"vseed,omitempty"`
+	VDens     int       `json:"vdens,omitempty"`
+	XUni      []UniOpen `json:"xuni,omitempty"` // further unidirectional streams of the raw peer (see UniOpen in rawlib_test.go)
 }
 
 // (rapid prefers the front of a list)
@@ -156,6 +157,9 @@ func genGACase(t *rapid.T) GACase {
 		c.Client = rapid.SampledFrom([]string{"raw", "raw", "plain", "plain", "spec:chrome115", "spec:firefoxA"}).Draw(t, "client")
 	}
 	c.VSeed, c.VDens = genVarintEnc(t)
+	if c.Mode == "script" || c.Client == "raw" {
+		c.XUni = genExtraUni(t)
+	}
 	return c
 }
 
@@ -246,6 +250,9 @@ func runGA(c GACase, rec recorder) *vf.Verdict {
 	var v *vf.Verdict
 	setVarintEnc(c.VSeed, c.VDens)
 	defer setVarintEnc(0, 0)
+	setExtraUni(c.XUni)
+	defer setExtraUni(nil)
+	rec.Class("extra-uni:" + extraUniClass(c.XUni))
 	sim.Bubble(curT, 40*time.Second, func() {
 		switch {
 		case c.Mode == "script":
@@ -260,6 +267,7 @@ func runGA(c GACase, rec recorder) *vf.Verdict {
 			v = vf.Bad("C18/leak/goroutines", "%d goroutines still alive 40 s (virtual) after shutdown:\n%s", rep.Count, rep.Dump)
 		}
 	})
+	noteExtraUni(v, c.XUni)
 	return v
 }
 
